@@ -1,5 +1,8 @@
 import CdsVerif.Driver.LinCheck
 import CdsVerif.Gen.Dispatch
+import CdsVerif.Driver.SeqEval
+import CdsVerif.Driver.Replay
+import CdsVerif.Algo.Spin.Model
 open CdsVerif.Driver
 
 partial def lcLoop (h : IO.FS.Stream) (st : LcState) : IO Unit := do
@@ -24,11 +27,51 @@ partial def evalLoop (h : IO.FS.Stream) : IO Unit := do
       | none => IO.println "unknown-fn"
     evalLoop h
 
+partial def seqLoop (h : IO.FS.Stream) : IO Unit := do
+  let line ← h.getLine
+  if line.isEmpty then return ()
+  IO.println (seqEvalLine line)
+  seqLoop h
+
+open CdsVerif.Machine in
+/-- tie A: replay every case of the stream against model `m` started in `init cfgLine`. -/
+partial def replayLoop {σ : Type} (h : IO.FS.Stream) (m : Model σ) (init : List String → σ)
+    (relevant : String → Bool) (invB : σ → Bool) (cur : Option (String × RState σ)) : IO Unit := do
+  let line ← h.getLine
+  if line.isEmpty then return ()
+  match words line with
+  | "CASE" :: id :: _ => replayLoop h m init relevant invB (some (id, { st := init [] }))
+  | "#" :: rest =>
+    -- the header comment carries the configuration (variant=… etc.): restart the model with it
+    match cur with
+    | some (id, r) =>
+      if r.lineNo == 0 && rest.any (·.startsWith "family=") then
+        replayLoop h m init relevant invB (some (id, { st := init rest }))
+      else replayLoop h m init relevant invB cur
+    | none => replayLoop h m init relevant invB cur
+  | "END" :: _ =>
+    match cur with
+    | some (id, r) =>
+      match r.verdict with
+      | none => IO.println s!"OK {id} steps={r.steps} skipped={r.skipped}"
+      | some v => IO.println s!"DIVERGE {id} {v}"
+      replayLoop h m init relevant invB none
+    | none => replayLoop h m init relevant invB none
+  | _ =>
+    match cur with
+    | some (id, r) => replayLoop h m init relevant invB (some (id, replayLine m relevant invB r line))
+    | none => replayLoop h m init relevant invB none
+
 def main (args : List String) : IO UInt32 := do
   let stdin ← IO.getStdin
   match args with
   | ["lincheck"] => lcLoop stdin {}; return 0
   | ["eval"] => evalLoop stdin; return 0
+  | ["seqeval"] => seqLoop stdin; return 0
+  | ["replay", "spin"] =>
+    replayLoop stdin CdsVerif.Algo.Spin.model (fun _ => CdsVerif.Algo.Spin.init)
+      (fun loc => loc.startsWith "L") (fun _ => true) none
+    return 0
   | _ =>
     IO.eprintln "usage: cdsdriver lincheck|replay <model>|eval <fn>"
     return 2
